@@ -29,6 +29,15 @@ C05_CostConsistent == T.terminated = 1 =>
          rnd == BSumSeq([v \in 1..T.n |-> BMul(T.wt100[v], BAbsInt((IF T.pos6[v] < T.des6[v] THEN T.des6[v] - T.pos6[v] ELSE T.pos6[v] - T.des6[v]) + 1))], 1)
          tol == BAdd(rnd, BAdd(BFromInt(100000000), BShiftR(c, 2)))
      IN BWf(T.ret14) /\ BLe(c, BAdd(T.ret14, tol)) /\ BLe(T.ret14, BAdd(c, tol))
+\* the same at full float precision (displacements in units of 1e-12, cost in units of 1e-26): with wall-like weights of 1e10
+\* the rounding allowance of the clause above is of the order of the cost itself
+CostFine == BSumSeq([v \in 1..T.n |-> BMul(T.wt100[v], BMul(T.disp12[v], T.disp12[v]))], 1)
+C05_CostConsistentFine == T.terminated = 1 =>
+     LET c == CostFine
+         \* rounding of each displacement to 1e-12: sum of w*(|x-d|+1) units; + 1e-6 absolute + 1e-8 relative
+         rnd == BSumSeq([v \in 1..T.n |-> BMul(T.wt100[v], BAdd(T.disp12[v], <<1>>))], 1)
+         tol == BAdd(rnd, BAdd(<<0, 0, 0, 0, 0, 1>>, BShiftR(c, 2)))
+     IN BWf(T.ret26) /\ BLe(c, BAdd(T.ret26, tol)) /\ BLe(T.ret26, BAdd(c, tol))
 \* ---- optimality by certificate: the harness may propose a point (1e-6 grid).  If TLC finds it EXACTLY feasible and
 \* cheaper than the observed result by more than the tolerance, the observed result is not optimal.
 SX(n) == SBig(n)
